@@ -148,6 +148,33 @@ def run(ctx):
                 if gb:
                     ctx.violation('a tampered compact signature verifies', {'op': 'verify-form tampered ' + name})
 
+    # ---- signature OBJECTS with a history: they may already carry a public key (from sign(), from an earlier verify) -----------
+    ka, kb = Key(rng.randrange(1, N)), Key(rng.randrange(1, N))
+    for trial in range(6 if not T else 30):
+        zz = rng.getrandbits(256)
+        sg = sign(zh(zz), ka)                      # carries ka
+        seq = [rng.choice([ka, kb]) for _ in range(4)]
+        got, want = [], []
+        for kx in seq:
+            try:
+                got.append(bool(sg.verify(zh(zz), kx)))
+            except Exception as e:
+                got.append('raise:' + type(e).__name__)
+            want.append(run_driver(['ecdsa_verify_rs %s %s %d %d' % (kx.public_byte.hex(), zh(zz), sg.r, sg.s)])[0].split(' | ')[0].startswith('true'))
+        ctx.evals += 1
+        ctx.count('signature-object-history')
+        if got != want:
+            ctx.violation('a signature object verified against a sequence of keys does not answer like the standard verifier',
+                          {'op': 'object-history', 'signed_by': 'A', 'keys_tried': ['A' if k is ka else 'B' for k in seq], 'observed': got, 'expected': want})
+        # the module-level verify() with the same object
+        from bitcoinlib.keys import verify as mod_verify
+        try:
+            g2 = bool(mod_verify(zh(zz), sg, kb.public_byte))
+        except Exception:
+            g2 = False
+        if g2:
+            ctx.violation('verify(digest, signature object, other key) accepts a signature made by another key', {'op': 'object-history verify()'})
+
     # ---- DER parsing ----------------------------------------------------------------------------------------
     def lib_der(der):
         try:
